@@ -50,7 +50,7 @@ def answer_bound(max_size):
 
 def terminate_first_order(run, tier):
     rnd = random.Random(seed() * 101 + 9)
-    n = 90 if tier == "quick" else 1200
+    n = 90 if tier == "quick" else 500
     progs = []
     for i in range(n):
         if i % 3 == 0:
@@ -75,7 +75,7 @@ def terminate_first_order(run, tier):
             rp = {"program": job["program"], "solver": solver, "goals": [x["goal"] for x in job["ops"]], "observed": {k: v for k, v in o.items() if k != "events"}}
             if o.get("error"):
                 if str(o["error"]).startswith("lowering"): raise ToolError("program does not lower: %s: %s" % (job["program"], o["error"]))
-                run.violation(dict(base, what="abort-or-hang"), rp); continue
+                run.violation(dict(base, what="abort-or-hang", rec_cyclic=(not slg and po.cyclic(p["impls"]))), rp); continue
             bad = False
             for op, r in zip(job["ops"], o["results"]):
                 if r.get("class") == "Panic":
@@ -94,7 +94,7 @@ def terminate_first_order(run, tier):
             run.sample({"program": job["program"], "solver": tag, "goals": [x["goal"] for x in job["ops"]][:4],
                         "impl": [r.get("text") or r.get("class") for r in o["results"]][:4]}, cap=5)
         if traces:
-            budget = 25000 if tier == "quick" else 400000      # events validated per limit configuration
+            budget = 25000 if tier == "quick" else 120000      # events validated per limit configuration
             rnd.shuffle(traces)
             sel = []
             for t in traces:
